@@ -37,6 +37,8 @@ namespace V2
 @[inline] def get (a : V2 K) (i : Nat) : K := if i = 0 then a.x else a.y
 @[inline] def set (a : V2 K) (i : Nat) (v : K) : V2 K := if i = 0 then { a with x := v } else { a with y := v }
 @[inline] def toList (a : V2 K) : List K := [a.x, a.y]
+/-- nalgebra `normalize`: `self.unscale(self.norm())` -/
+@[inline] def normalize (v : V2 K) : V2 K := v.sdiv v.norm
 /-- `na::center(a, b)` = `a + (b - a) * 0.5`?  nalgebra: `((a.coords + b.coords) * 0.5)` -/
 @[inline] def center (a b : V2 K) : V2 K := (a.add b).smul (lit 1 2)
 end V2
@@ -61,6 +63,8 @@ namespace V3
 @[inline] def set (a : V3 K) (i : Nat) (v : K) : V3 K :=
   if i = 0 then { a with x := v } else if i = 1 then { a with y := v } else { a with z := v }
 @[inline] def toList (a : V3 K) : List K := [a.x, a.y, a.z]
+/-- nalgebra `normalize`: `self.unscale(self.norm())` -/
+@[inline] def normalize (v : V3 K) : V3 K := v.sdiv v.norm
 @[inline] def center (a b : V3 K) : V3 K := (a.add b).smul (lit 1 2)
 end V3
 
